@@ -150,6 +150,53 @@ def generate(ctx):
             else:
                 term = "[true; false; true; true]"
             inp = {"string": s, "mangle": m}
+        elif i % 14 == 6:
+            # replacing a field by one of the SAME kind of type with other parameters (timestamp unit / timezone, decimal precision,
+            # duration unit, fixed-size width): the declared dtype must follow the storage
+            pairs = [(pa.timestamp("ns"), pa.timestamp("s")), (pa.timestamp("ns"), pa.timestamp("ns", tz="UTC")),
+                     (pa.decimal128(10, 2), pa.decimal128(12, 3)), (pa.duration("s"), pa.duration("ms")), (pa.time32("s"), pa.time32("ms")),
+                     (pa.binary(2), pa.binary(3)), (pa.timestamp("us", tz="UTC"), pa.timestamp("us", tz="Europe/Paris"))]
+            t_old, t_new = rng.choice(pairs)
+            lens = [rng.randint(0, 3) for _ in range(rng.randint(1, 4))]
+
+            def vals(t, k):
+                if pa.types.is_decimal(t):
+                    import decimal
+                    return [decimal.Decimal("1.25")] * k
+                if pa.types.is_fixed_size_binary(t):
+                    return [b"x" * t.byte_width] * k
+                return [1] * k
+            st = pa.struct([("a", pa.list_(pa.int64())), ("p", pa.list_(t_old))])
+            arr0 = NEA(pa.StructArray.from_arrays([pa.array([[0] * k for k in lens], type=pa.list_(pa.int64())),
+                                                   pa.array([vals(t_old, k) for k in lens], type=pa.list_(t_old))], names=["a", "p"]))
+            via = rng.choice(["with_flat_field", "with_list_field", "with_field", "array_set_flat", "frame_setitem"])
+
+            def run_p():
+                s0 = pd.Series(arr0, name="n")
+                if via == "with_flat_field":
+                    out = s0.nest.with_flat_field("p", pa.array(vals(t_new, sum(lens)), type=t_new))
+                elif via == "with_field":
+                    out = s0.nest.with_field("p", pa.array(vals(t_new, sum(lens)), type=t_new))
+                elif via == "with_list_field":
+                    out = s0.nest.with_list_field("p", pa.array([vals(t_new, k) for k in lens], type=pa.list_(t_new)))
+                elif via == "array_set_flat":
+                    a2 = arr0.copy()
+                    a2.set_flat_field("p", pa.array(vals(t_new, sum(lens)), type=t_new))
+                    out = pd.Series(a2, name="n")
+                else:
+                    nf = NestedFrame({"x": list(range(len(lens)))})
+                    nf["n"] = s0
+                    nf["n.p"] = pa.array(vals(t_new, sum(lens)), type=t_new)
+                    out = nf["n"]
+                assert out.array.chunked_array.type.field("p").type.value_type == t_new, "the new values were not stored with their type"
+                assert out.dtype == out.array.dtype, "series dtype differs from array dtype"
+                assert out.dtype.pyarrow_dtype == out.array.chunked_array.type, "declared dtype differs from the type of the stored data"
+                assert out.dtype.fields["p"] == t_new
+                return True
+            res = attempt(run_p)
+            term = f"[true; {cq_bool(res[0] == 'ok')}; true; true]"
+            inp = {"replace": [str(t_old), str(t_new)], "via": via, "lens": lens}
+            kind = "edit_parametric"
         else:
             inpc = ao.mk_input(rng, max_rows=5, recipes=[l for l in gen.LAYOUTS if l != "missing_hidden"] + ["history"])
             if inpc.get("history_failed") or inpc["built"][0] != "ok":
